@@ -198,6 +198,7 @@ class Funcs:
         self.unflatten_calls = 0
         self.malform = None
         self.keep = None  # when a list: every children list handed to the engine is appended (C16 mutates it)
+        self.keep_entries = None  # when a list: every ENTRIES list handed to the engine is appended (C14 mutates it later)
 
     def meta(self, aux):
         if self.style == 3:
@@ -246,7 +247,10 @@ class Funcs:
         lst = list(ch)
         if self.keep is not None:
             self.keep.append(lst)
-        return lst, self.meta(node.aux), ['k%d' % i for i in range(n)]
+        ents = ['k%d' % i for i in range(n)]
+        if self.keep_entries is not None:
+            self.keep_entries.append(ents)
+        return lst, self.meta(node.aux), ents
 
     @staticmethod
     def _gen(ch):
